@@ -40,14 +40,18 @@ def handleRequest {M : Type} (p : Pair M) (k : Nat) : Pair M × Option (List M) 
   if p.buf.length = k then (⟨[], none⟩, some p.buf) else (⟨p.buf, some k⟩, none)
 
 /-- `dkg.PublicKey` message: index and (decoded) key; `none` = missing / undecodable key.
-`sender` is the position in the group id list of the transport-authenticated sender that `Loop`
-stamps on the message (`stampSender`, fix e9f475e; group ids are pairwise distinct, a sender
-outside the group is any number `≥ n`). -/
+`sender` is the field `SenderId` as a position in the group id list (group ids are pairwise distinct;
+bytes that are no group id – empty, garbage – are any number `≥ n`).  On the wire it is whatever
+the sending process put there; `Loop` overwrites it with the transport-authenticated sender before
+the message is buffered (`stampSender`, fix e9f475e). -/
 structure PkMsg (P : Type) where
   index : Nat
   key : Option P
   sender : Nat
   deriving DecidableEq, Repr
+
+/-- `stampSender`: unconditional overwrite of the claimed sender -/
+def stampSender {P : Type} (x : PkMsg P) (sender : Nat) : PkMsg P := { x with sender := sender }
 
 def dupPk {P : Type} (a b : PkMsg P) : Bool := a.index = b.index
 def dupDeal {S P : Type} (a b : DkgDeal S P) : Bool := a.index = b.index
@@ -210,6 +214,10 @@ def orElse {α : Type} (a b : Option α) : Option α := match a with | some x =>
 def Member.recvPk (g : P) (m : Member S P) (x : PkMsg P) : Member S P :=
   let (p, b) := handlePeerMsg dupPk m.pkP x
   Member.advance g 4 { m with pkP := p, pkBox := orElse m.pkBox b }
+
+/-- a `PublicKey` message from transport peer `sender` as `Loop` handles it: stamp, then `handlePeerMsg` -/
+def Member.loopPk (g : P) (m : Member S P) (sender : Nat) (x : PkMsg P) : Member S P :=
+  m.recvPk g (stampSender x sender)
 
 def Member.recvDeal (g : P) (m : Member S P) (x : DkgDeal S P) : Member S P :=
   let (p, b) := handlePeerMsg dupDeal m.dlP x
